@@ -485,4 +485,8 @@ func runC10(p *P, r *R) {
 		r.ob("R10.6", "(*Stream).readMore: an empty non-open stream yields an end/closed error before any wait", p.pos(rm.Pos()), ok, true, "")
 	}
 	_ = token.ADD
+	// R10.9 the close notification travels the channel the stream's data travels (sticky fallback mark set whenever data
+	// left through the connection; close consults it): otherwise the peer sees end-of-stream before flushed data
+	// (shared with C07 R07.2-R07.4)
+	borrow(p, r, "C07", runC07, map[string]string{"R07.2": "R10.9", "R07.3": "R10.9", "R07.4": "R10.9"}, nil)
 }
